@@ -1,10 +1,11 @@
 #!/bin/bash
-# Offline setup: build the harness packages against /repo's current tree (warms the build cache).
+# Offline setup: build the harness packages against /repo's current tree (warms the build cache)
+# and run the self-tests of the in-memory database engine.
 set -e
 cd "$(dirname "$0")/harness"
 export GOFLAGS=-mod=mod GOPROXY=off GOSUMDB=off GOTOOLCHAIN=local
 [ -f go.sum ] || cp /repo/go.sum go.sum
-go build ./... 
-go vet -tags verif ./stats ./pt ./refwire >/dev/null 2>&1 || true
+go build -tags verif ./...
+go test -tags verif -count=1 ./memsql
 go test -tags verif -count=1 -run '^$' ./... >/dev/null
 echo "setup ok"
